@@ -408,7 +408,9 @@ def r4_log_stream(repo, report):
               why=(f"--{missing[0].replace('_', '-')} - is not recognised as standard output: the log and the report are then written to standard output too, in between the records" if missing else ""))
     m = cli_main(repo)
     sl = [x for x in calls(m) if chain(x.func) == "setup_logging"]
-    ok = len(sl) == 1 and any(k.arg == "log_to_stderr" and isinstance(k.value, ast.Call) and chain(k.value.func) == "is_any_output_stdout" for k in sl[0].keywords)
+    from ..repo import call_arguments
+    lts = call_arguments(repo, sl[0]).get("log_to_stderr") if len(sl) == 1 else None
+    ok = lts is not None and isinstance(lts, ast.Call) and chain(lts.func) == "is_any_output_stdout"
     report.ob("C19.R4", "main sends the log to standard error whenever records go to standard output", ok, facts={"call": src(sl[0])[:160] if sl else None}, expected="setup_logging(..., log_to_stderr=is_any_output_stdout(args), ...)", loc=repo.loc(m))
 
 
